@@ -426,3 +426,65 @@ def check_C06(ctx):
         ctx.sample(dict(kind=k, src=s[:80].decode("latin1")))
     return ctx.finish("outcome classes {ok, parse error, runtime error, panic, hang}; inputs the property excludes (repetition "
                       "beyond 2^20 bytes) are recognised by the model and not run")
+
+
+# ---------------------------------------------------------------- C10
+def check_C10(ctx):
+    from .p_dumpload import parse_parts
+    ctx.build(["Proofs/TieVm.vo", "Proofs/TieFormat.vo", "Proofs/TieParse.vo", "Properties/C10.vo"], "Properties/C10.v")
+    rng = random.Random(ctx.seed * 10007 + 10)
+    g = Gen(rng, max_depth=5, allow_errors=0.02, small_floats=True)
+    srcs = [g.program() for _ in range(ctx.n(400, 4000))]
+    srcs += [blocks_program(rng, with_bind=True) for _ in range(ctx.n(100, 1000))]
+    srcs += [scope_program(rng, 6, bad=0.0) for _ in range(ctx.n(100, 1000))]
+    # long short-circuit chains, operands longer than 240 and (thorough) 65535 bytes of code, nesting, many locals
+    for n in [1, 2, 10, 100, 1000]:
+        srcs.append(b"print 1" + b" and 1" * n + b"\n")
+        srcs.append(b"print 0" + b" or 0" * n + b" or 7\n")
+        srcs.append(b"print " + b"(1 and 0 or " * n + b"2" + b")" * n + b"\n")
+        srcs.append(b"print 1 and (1" + b"+1" * (n * 10) + b") or (2" + b"*2" * (n * 10) + b")\n")
+    for n in [1, 5, 16]:
+        srcs.append(b"def a {" * n + b" x = 1 and 2 or 3\n var v = x\n" + b"}" * n + b"\n")
+    srcs.append(b"".join(b"var v%d = %d and v%d or %d\n" % (i, i, max(i - 1, 0), i) for i in range(1, 300)) + b"print v299\n")
+    srcs.append(b"def t { " + b" ".join(b"f%d = %d" % (i, i) for i in range(300)) + b" }\nbind t -> struct\n")
+    cases = [dict(id="w%d" % i, src=s) for i, s in enumerate(srcs)]
+    rs, missing, err = interp.run(ctx, cases)
+    decide(ctx, rs, missing, err, {"parts"}, "C10_wellformed", "wf")
+    items = []
+    accepted = []
+    for c, o, m in rs:
+        if o is None or not o["Parts"]:
+            continue
+        accepted.append((c, o))
+        items.append(("verify", c["id"], parse_parts(o["Parts"])))
+        if o["Err"].startswith("internal error"):
+            ctx.violation("executing a compiled program ended in the internal error: %s" % o["Err"], dict(src_hex=c["src"].hex()),
+                          impl=o["Err"], theorem="C10_check_sound", key="internal-error")
+    # corrupted code must be rejected (the verifier is not vacuous): single-byte damage of accepted code
+    mut = []
+    for c, o in accepted[:ctx.n(150, 1500)]:
+        d = dict(kv.split("=", 1) for kv in o["Parts"].split(" ") if "=" in kv)
+        code = bytearray(bytes.fromhex(d["code"]))
+        if len(code) < 3:
+            continue
+        i = rng.randrange(len(code))
+        code[i] = (code[i] + rng.randint(1, 255)) % 256
+        parts = "name=%s code=%s consts=%s pos=%s lfs=%s" % (d["name"], bytes(code).hex(), d["consts"], d["pos"], d["lfs"])
+        mut.append(("verify", "m" + c["id"], parse_parts(parts)))
+    vres = ctx.model(items + mut, timeout=3000)
+    nver = 0
+    for c, o in accepted:
+        ctx.count(1, casehash(c["src"], "verify"))
+        if vres.get(c["id"]) != "verified":
+            ctx.violation("the bytecode verifier rejects code emitted by the compiler: some path is not well-formed",
+                          dict(src_hex=c["src"].hex(), src=c["src"][:300].decode("utf8", "replace"), parts=o["Parts"][:600]),
+                          impl=o["Parts"][:300], model=vres.get(c["id"]), theorem="C10_wellformed", key="verify-rejects")
+        else:
+            nver += 1
+    rejected = sum(1 for s, i, p in mut if vres.get(i) == "REJECTED")
+    ctx.suite_stats["wf"]["verified_programs"] = nver
+    ctx.suite_stats["wf"]["damaged_code_rejected"] = "%d of %d" % (rejected, len(mut))
+    ctx.traces += nver
+    ctx.sample(dict(program=srcs[0][:200].decode("utf8", "replace")))
+    return ctx.finish("certificate checking: verify is run on the code the REAL compiler produced (read through the verif-tagged hook); "
+                      "a pass is, by check_sound, a proof of the property for that program including the operands a run skips")
